@@ -1138,6 +1138,8 @@ let suite_http t v =
   let exists = ni t in
   expect t "=";
   let status = ni t in let outside = nb t in let changed = nb t in
+  let foreign = if eol t then false else nb t in
+  let disclosed = if eol t then false else nb t in
   let sources = if srcsv = 0 then [] else if srcsv = 1 then [segz "good"; segz "oth/er"] else [segz "site.alpha"; segz "b1/c2"; segz "good"] in
   let keys = if keysv = 0 then [] else [segz "k1"; segz "k2"] in
   let cs = source <> "" && String.for_all (fun c -> (c >= 'a' && c <= 'z') || (c >= '0' && c <= '9') || c = '.' || c = '-' || c = '/') source in
@@ -1147,6 +1149,8 @@ let suite_http t v =
   let refused = status >= 300 in
   (* ---- oracles ---- *)
   if outside then oracle v "touched_file_outside_configured_directories" false;
+  if foreign then oracle v "touched_file_of_another_source" false;
+  if disclosed then oracle v "disclosed_file_of_another_source" false;
   if status <> -1 then begin
     if refused && changed then oracle v "refused_request_had_effect" false;
     if decision <> 0 && not refused then oracle v "unauthorised_request_processed" false
@@ -1474,6 +1478,43 @@ let suite_race t v =
   v.cls <- "D";
   v.nontrivial <- true
 
+(* ============================ suite G : which tag applies to a file (C19) ====== *)
+let suite_tags t v =
+  let nt = ni t in
+  let haspat = Array.of_list (times nt (fun () -> nb t)) in
+  let nn = ni t in
+  let rows = times nn (fun () ->
+    let name = next t in let group = next t in
+    let bits = Array.of_list (times nt (fun () -> let a = nb t in let b = nb t in let c = nb t in let d = nb t in (a, b, c, d))) in
+    (name, group, bits)) in
+  expect t "=";
+  let got = times nn (fun () -> ni t) in
+  let idx_of_nat n = let rec go k = function M.O -> k | M.S m -> go (k + 1) m in go 0 n in
+  List.iter2 (fun (name, group, bits) g ->
+    (* the model's strings: 0 :: name = "the name", 1 :: group = "its group" - the verdict tables are per string *)
+    let sname = [z_of_int 0] and sgroup = [z_of_int 1] in
+    let is_name s = (s = sname) in
+    let has_pattern i = let k = idx_of_nat i in k < nt && haspat.(k) in
+    let matches i s = let k = idx_of_nat i in k < nt && (let (a, b, _, _) = bits.(k) in if is_name s then a else b) in
+    let name_is i s = let k = idx_of_nat i in k < nt && (let (_, _, c, d) = bits.(k) in if is_name s then c else d) in
+    let group_of s = if is_name s && group <> "-" then Some sgroup else None in
+    let m = (match M.file_tag (nat_of_int nt) has_pattern matches name_is group_of sname with
+             | Some i -> idx_of_nat i | None -> -1) in
+    if m <> g then begin
+      diff v "tag-of-file";
+      (* independent reading of the property: the first tag, in configuration order, whose pattern matches
+         the group (the name when there is no usable group) *)
+      let expected =
+        let rec go k = if k >= nt then -1 else
+          let (a, b, c, d) = bits.(k) in
+          let hit = if group <> "-" then (b || d) else (a || c) in
+          if haspat.(k) && hit then k else go (k + 1) in go 0 in
+      if g <> expected then oracle v "file_gets_settings_of_wrong_tag" false
+    end;
+    ignore name) rows got;
+  v.cls <- "D";
+  v.nontrivial <- nt >= 2
+
 (* ============================ dispatch ====================================== *)
 let run_line line =
   let t = mk line in
@@ -1492,6 +1533,7 @@ let run_line line =
       | "N" -> suite_scan t v
       | "W" -> suite_wire t v
       | "SR" -> suite_race t v
+      | "G" -> suite_tags t v
       | "WH" -> suite_wire_http t v
       | "LC" -> suite_log_conc t v
       | s -> raise (Malformed ("unknown suite " ^ s)))
